@@ -327,10 +327,12 @@ structure Step (α : Type) where
   decoded : Except Exc JTop
   sends : List (Send α)
 
-def StepOK {α : Type} [DecidableEq α] (n : Node) (st : Step α) : Prop :=
-  if IsRequest st.decoded then BatchOK n (.peer st.addr) st.sends else st.sends = []
+/-- `reach a = false`: datagrams cannot be sent to `a` (the operating system refuses, e.g. source port 0): a request
+from there cannot be answered; nothing is sent instead, and the responder goes on -/
+def StepOK {α : Type} [DecidableEq α] (n : Node) (reach : α → Bool) (st : Step α) : Prop :=
+  if IsRequest st.decoded ∧ reach st.addr = true then BatchOK n (.peer st.addr) st.sends else st.sends = []
 
-instance {α : Type} [DecidableEq α] (n : Node) (st : Step α) : Decidable (StepOK n st) := by
+instance {α : Type} [DecidableEq α] (n : Node) (reach : α → Bool) (st : Step α) : Decidable (StepOK n reach st) := by
   unfold StepOK; infer_instance
 
 /-- A recorded run: `received` datagrams arrived (with their decodings), `steps` is what the responder
@@ -339,17 +341,18 @@ did with those it took, in order; `announce` is what it sent at start-up.
   broadcast address; *every* datagram was taken (the responder is still there for the last one) and
   each was answered iff it is a request;
 * identity does not fit: nothing is sent at all. -/
-def RunOK {α : Type} [DecidableEq α] (n : Node) (startup : Bool) (received : List (α × Except Exc JTop))
-    (announce : List (Send α)) (steps : List (Step α)) : Prop :=
+def RunOK {α : Type} [DecidableEq α] (n : Node) (startup : Bool) (reach : α → Bool)
+    (received : List (α × Except Exc JTop)) (announce : List (Send α)) (steps : List (Step α)) : Prop :=
   if IdentityFits n then
     (if startup then BatchOK n .broadcast announce else announce = []) ∧
     steps.map (fun st => (st.addr, st.decoded)) = received ∧
-    ∀ st ∈ steps, StepOK n st
+    ∀ st ∈ steps, StepOK n reach st
   else
     announce = [] ∧ ∀ st ∈ steps, st.sends = []
 
-instance {α : Type} [DecidableEq α] (n : Node) (startup : Bool) (received : List (α × Except Exc JTop))
-    (announce : List (Send α)) (steps : List (Step α)) : Decidable (RunOK n startup received announce steps) := by
+instance {α : Type} [DecidableEq α] (n : Node) (startup : Bool) (reach : α → Bool)
+    (received : List (α × Except Exc JTop)) (announce : List (Send α)) (steps : List (Step α)) :
+    Decidable (RunOK n startup reach received announce steps) := by
   unfold RunOK; infer_instance
 
 /-- what the constructed responder says about itself -/
@@ -386,20 +389,22 @@ def announcedServedB (served announceable : List Nat) : Bool := decide (Announce
 def wellFormedMessageB (n : Node) (msg : Bytes) : Bool := decide (WellFormedMessage n msg)
 def listenerOKB (n : Node) (enabled : Bool) (d : Str) : Bool := decide (ListenerOK n enabled d)
 def truncationMinimalB (n : Node) (d : Str) : Bool := decide (TruncationMinimal n d)
-def runOKB {α : Type} [DecidableEq α] (n : Node) (startup : Bool) (received : List (α × Except Exc JTop))
-    (announce : List (Send α)) (steps : List (Step α)) : Bool := decide (RunOK n startup received announce steps)
+def runOKB {α : Type} [DecidableEq α] (n : Node) (startup : Bool) (reach : α → Bool)
+    (received : List (α × Except Exc JTop)) (announce : List (Send α)) (steps : List (Step α)) : Bool :=
+  decide (RunOK n startup reach received announce steps)
 
 /-- first thing wrong with a recorded run, for the report (`none` = `RunOK`) -/
-def diagnose {α : Type} [DecidableEq α] (n : Node) (startup : Bool) (received : List (α × Except Exc JTop))
-    (announce : List (Send α)) (steps : List (Step α)) : Option String :=
-  if RunOK n startup received announce steps then none
+def diagnose {α : Type} [DecidableEq α] (n : Node) (startup : Bool) (reach : α → Bool)
+    (received : List (α × Except Exc JTop)) (announce : List (Send α)) (steps : List (Step α)) : Option String :=
+  if RunOK n startup reach received announce steps then none
   else if ¬ IdentityFits n then some "sends-although-identity-does-not-fit"
   else if ¬ (if startup then BatchOK n .broadcast announce else announce = []) then
     (if (announce ++ steps.flatMap (·.sends)).any (fun s => decide (limit < s.payload.length)) then some "message-too-long"
      else some "announcement-malformed")
-  else if ¬ (∀ st ∈ steps, StepOK n st) then
+  else if ¬ (∀ st ∈ steps, StepOK n reach st) then
     (if steps.any (fun st => st.sends.any (fun s => decide (limit < s.payload.length))) then some "message-too-long"
-     else if steps.any (fun st => decide (IsRequest st.decoded) && st.sends.isEmpty) then some "request-not-answered"
+     else if steps.any (fun st => decide (IsRequest st.decoded) && reach st.addr && st.sends.isEmpty) then some "request-not-answered"
+     else if steps.any (fun st => !reach st.addr && !st.sends.isEmpty) then some "sends-to-unreachable-sender"
      else if steps.any (fun st => !decide (IsRequest st.decoded) && !st.sends.isEmpty) then some "non-request-answered"
      else some "answer-malformed")
   else some "responder-gone"
